@@ -389,7 +389,23 @@ func c02Case(w *core.Worker, i int) {
 		return h, rs, ""
 	}
 	compare := func(path, file string, want [][]*string) bool {
-		b, _ := os.ReadFile(filepath.Join(dir, file))
+		b, rerr := os.ReadFile(filepath.Join(dir, file))
+		if rerr != nil && os.IsNotExist(rerr) && path == "--out" && d.NoHeader {
+			// an --out file that received no byte is removed again (lib/action/run.go): a table whose only cells are
+			// empty, written without header line and without ending line break, has no bytes — nothing to read back
+			allEmpty := true
+			for _, row := range want {
+				for _, c := range row {
+					if c != nil && *c != "" {
+						allEmpty = false
+					}
+				}
+			}
+			if allEmpty {
+				w.Count("empty_outputs_removed", 1)
+				return false
+			}
+		}
 		h, got, e := readBack(file)
 		if e != "" {
 			sig := "unreadable-after-write"
